@@ -1,0 +1,102 @@
+//go:build verif
+
+package main
+
+// Contracts for the jd command (v2/jd), read by the verifier in /verif (jdvc). Comments only.
+//
+// Effect model (ghost world, see /verif/DESIGN.md): stdout is the text printed so far, stderrLines
+// the number of log lines, fileWritten / fileName / fileData / writeErr describe the last
+// WriteFile, exit is the status passed to os.Exit. Flag variables are read-only inputs.
+// ensures_exit clauses must hold at every os.Exit reachable from the function; local variables
+// named in them are resolved at the exit point.
+
+// Every function of the command is verified for safety obligations (no panic: C13) and for its
+// effect contract (C14).
+//@ sweep C13 C14
+//@ nosweep runAsGitHubAction uses defer and os/exec (outside the verified subset); not part of the CLI contract
+//@ nosweep serveWeb starts the web UI (net/http); not part of the CLI contract
+//@ nosweep init flag registration at package initialisation
+
+//@ contract printDiff
+//@   noreturn
+//@   ensures_exit err != nil ==> exit == 2 && stdout == old(stdout) && stderrLines == old(stderrLines) + 1
+//@   ensures_exit exit == 2 ==> stdout == old(stdout) && stderrLines == old(stderrLines) + 1
+//@   ensures_exit exit != 2 && *output == "" ==> stdout == old(stdout) + str && fileWritten == old(fileWritten) && stderrLines == old(stderrLines)
+//@   ensures_exit exit != 2 && *output != "" ==> stdout == old(stdout) && fileWritten && fileName == *output && fileData == str && writeErr == nil
+//@   ensures_exit exit != 2 ==> exit == specExitCode(haveDiff)
+//@   ensures_exit exit == 0 || exit == 1 || exit == 2
+//@   carries C14 C05
+
+//@ contract printPatch
+//@   noreturn
+//@   ensures_exit err != nil ==> exit == 2 && stdout == old(stdout)
+//@   ensures_exit exit == 2 ==> stdout == old(stdout) && stderrLines == old(stderrLines) + 1
+//@   ensures_exit exit != 2 ==> exit == 0
+//@   ensures_exit exit != 2 && *output == "" ==> stdout == old(stdout) + out && fileWritten == old(fileWritten)
+//@   ensures_exit exit != 2 && *output != "" ==> stdout == old(stdout) && fileWritten && fileName == *output && fileData == out && writeErr == nil
+//@   carries C14
+
+//@ contract printTranslation
+//@   noreturn
+//@   ensures_exit exit == 2 ==> stdout == old(stdout) && stderrLines == old(stderrLines) + 1
+//@   ensures_exit exit != 2 ==> exit == 0
+//@   ensures_exit exit != 2 && *output == "" ==> stdout == old(stdout) + out && fileWritten == old(fileWritten)
+//@   ensures_exit exit != 2 && *output != "" ==> stdout == old(stdout) && fileWritten && fileName == *output && fileData == out && writeErr == nil
+//@   carries C14
+
+//@ contract errorfAndExit
+//@   noreturn
+//@   ensures_exit exit == 2 && stdout == old(stdout) && stderrLines == old(stderrLines) + 1
+//@   carries C14 C13
+
+//@ contract readFile
+//@   ensures_exit exit == 2 && stdout == old(stdout) && stderrLines == old(stderrLines) + 1
+//@   carries C14 C13
+
+//@ contract readStdin
+//@   ensures_exit exit == 2 && stdout == old(stdout) && stderrLines == old(stderrLines) + 1
+//@   carries C14 C13
+
+//@ contract printGitDiffDriver
+//@   ensures_exit exit == 2 ==> stdout == old(stdout)
+//@   ensures_exit exit != 2 ==> exit == 0 && stdout == old(stdout) + str
+//@   carries C14
+
+//@ contract errorAndExit
+//@   noreturn
+//@   ensures_exit exit == 2 && stdout == old(stdout) && stderrLines == old(stderrLines) + 1
+//@   carries C14 C13
+
+//@ contract printUsageAndExit
+//@   noreturn
+//@   ensures_exit exit == 2
+//@   carries C14
+
+// Flag -> option translation (README): -set, -mset, -setkeys K, -f merge, -precision N;
+// -precision cannot be combined with -set / -mset.
+//@ contract parseMetadata
+//@   ensures *precision != 0.0 && (*set || *mset) ==> ret1 != nil
+//@   ensures ret1 == nil ==> specOptIn(ret0, jd.SET) == *set
+//@   ensures ret1 == nil ==> specOptIn(ret0, jd.MULTISET) == *mset
+//@   ensures ret1 == nil ==> specOptIn(ret0, jd.MERGE) == (*format == "merge")
+//@   loop "range ks" invariant true
+//@   carries C14
+
+//@ contract diff
+//@   ensures ret2 == nil && (*format == "" || *format == "jd") ==> ret1 == (ret0 != "")
+//@   ensures ret2 == nil && *format == "patch" ==> ret1 == (ret0 != "[]")
+//@   ensures ret2 == nil && *format == "merge" ==> ret1 == (ret0 != "{}")
+//@   ensures ret2 == nil ==> *format == "" || *format == "jd" || *format == "patch" || *format == "merge"
+//@   carries C14 C05
+
+//@ contract main
+//@   ensures_exit exit == 0 || exit == 1 || exit == 2
+//@   carries C14 C13
+
+// Outside the verified subset (net/http server; defer + os/exec); not part of the CLI contract.
+//@ contract serveWeb
+//@   trusted
+//@ contract runAsGitHubAction
+//@   trusted
+//@   noreturn
+//@   ensures_exit exit == 0 || exit == 2
